@@ -80,7 +80,13 @@ def _core(pp):
         'plain',
         LazySub3(7),
         [LazySub2(8), LazySub3(9)],
+        [Lazy(1), Lazy2(0)],
     ]
+
+
+# (scenario, index of the value thread 1 prints, index of the value thread 2 prints): every switch point is tried, also in the quick tier - values that use two printers
+# registered lazily by name one after the other (a race in the first promotion may only show when the second one is looked up)
+DENSE = {('core', 11, 0), ('core', 11, 11), ('core', 3, 0)}        # thread 2 prints a value that uses the first of the two too
 
 
 def _stdlib(pp):
@@ -194,11 +200,13 @@ def _warm(pp):
             pp.pformat(['warm-up %03d ' % i * 11], width=40)
         # the values that will be printed again go last, three times over: whatever a bounded cache evicted while the first round was
         # inserted is back after the second, and nothing is inserted (or evicted) by the third
+        bare = 'delta 000 ' * 12         # printed on its own: few package lines, so that every switch point can be tried
         for _ in range(3):
+            pp.pformat(bare, width=40)
             for v in seen:
                 pp.pformat(v, width=40)
             pp.pformat({'k': seen[2][0]}, width=40)
-    return [seen[0], never, seen[1], more_bytes, {'k': seen[2][0]}]
+    return [bare, never, seen[1], more_bytes, {'k': seen[2][0]}]
 
 
 def scenarios():
